@@ -433,6 +433,25 @@ def exactness(ctx, prog):
         ("return result", f"self._should_split(bucket_index, {pe}.node_id)", "…whose result is the answer"),
     ]
     R.effect_table(ctx, "C11-D5/EXACT", ap, vocab, rows, "table insert: ")
+    defs = [x for x in ap.stmts(ast.Assign) if any(dotted(t) == "bucket_index" for t in x.targets)]
+    uses = [n for n in ap.local_nodes(ast.Name) if n.id == "bucket_index" and isinstance(n.ctx, ast.Load)]
+    mut = lambda n: isinstance(n, ast.Call) and call_name(n) in ("remove_peer", "_join_buckets", "_split_bucket", "add_peer") and dotted(n.func) and dotted(n.func).startswith("self.") \
+        and dotted(n.func) != "self.buckets[bucket_index].add_peer"
+    stale = None
+    for d_ in defs:
+        for u in uses:
+            if ap.evaluates_any(u, mut) if hasattr(ap, "evaluates_any") else False:
+                continue
+            un = ap.cfg_nodes(u)
+            mids = [n for n in ap.cfg.nodes if ap.evaluates(n, mut) and not any(n is x for x in un)]
+            for m_ in mids:
+                p1 = ap.path(ap.cfg_nodes(d_), [m_], avoid=lambda x: any(x is y for dd in defs for y in ap.cfg_nodes(dd)), include_exc=False)
+                p2 = ap.path([m_], un, avoid=lambda x: any(x is y for dd in defs for y in ap.cfg_nodes(dd)), include_exc=False) if p1 else None
+                if p1 and p2:
+                    stale = (d_, m_, u)
+    ctx.ob("C11-D5/EXACT", bool(defs) and stale is None, ap.site(defs[0]) if defs else ap.site(), "table insert: the bucket index is looked up after the last change of the bucket list — no removal, join "
+           "or split lies between the lookup and its use (joining shifts the list: a stale index files the contact under a bucket that does not cover it)",
+           detail="" if stale is None else f"index from L{stale[0].lineno} is still used at L{stale[2].lineno} after the table changed at L{stale[1].lineno}", func=q, key=f"C11-D5/EXACT|{q}|fresh-index")
     # --- admission rule
     ss = ctx.fa(f"{TRq}._should_split")
     q = ss.fi.qualname
